@@ -10,7 +10,7 @@ import os
 from lib import vf
 
 SYMS_ALL = ["id", "mut", "ref", "at", "raw", "fnname", "fnname_", "rawfn", "gnext", "gprev", "ugnext", "ugprev",
-            "wild", "tup2", "tup0", "ts1", "ts1w", "st1", "sts", "refp", "tsu", "nest2", "liftfn", "liftfn_", "tsmut", "stref", "tsat", "tsraw"]
+            "wild", "tup2", "tup0", "ts1", "ts1w", "st1", "sts", "refp", "tsu", "nest2", "liftfn", "liftfn_", "tsmut", "stref", "tsat", "tsraw", "implname"]
 
 PRELUDE = """
 pub struct N(pub i32);
@@ -29,6 +29,32 @@ def render(case):
     params = ", ".join(case["ptext"])
     body = "vec![" + ", ".join(case["bexpr"]) + "]"
     args = ", ".join(case["vexpr"])
+    rk = case.get("rk", "self")
+    if rk != "self":
+        # a function of an entraited impl block (static / dynamic delegation target of the entraited trait Tr); the trait
+        # declares plain parameter names of its own (t1, t2, ..) - the names under test are those of the generated
+        # `impl TImpl<EntraitT> for X0`
+        tparams = "".join(f", t{n}: {pt.rsplit(': ', 1)[1]}" for n, pt in enumerate(case["ptext"], start=1))
+        dyn = rk == "dyn"
+        tattr = "TImpl, delegate_by = ref" if dyn else "TImpl, delegate_by = DelegateTr"
+        iattr = "#[::entrait::entrait(ref)]" if dyn else "#[::entrait::entrait]"
+        glue = ("impl ::core::convert::AsRef<dyn TImpl<Self>> for App0 { fn as_ref(&self) -> &(dyn TImpl<Self> + 'static) { &X0 } }"
+                if dyn else "impl DelegateTr<Self> for App0 { type Target = X0; }")
+        return f"""use crate::{{N, N2, S}};
+#[::entrait::entrait({tattr})]
+pub trait Tr {{ fn {f}(&self{tparams}) -> Vec<i32>; }}
+pub struct X0;
+pub struct App0;
+{iattr}
+impl TImpl for X0 {{ pub fn {f}<D>(deps: &D{', ' if params else ''}{params}) -> Vec<i32> {{ {body} }} }}
+{glue}
+pub fn run() -> (Vec<i32>, Vec<i32>) {{
+    let app = ::entrait::Impl::new(App0);
+    let via_trait = Tr::{f}(&app{', ' if args else ''}{args});
+    let direct = X0::{f}(&app{', ' if args else ''}{args});
+    (via_trait, direct)
+}}
+"""
     if case["nodeps"]:
         attr = "#[::entrait::entrait(T, no_deps)]"
         sig = f"fn {f}({params}) -> Vec<i32>"
@@ -50,27 +76,42 @@ pub fn run() -> (Vec<i32>, Vec<i32>) {{
 """
 
 
-def observe(case, rec, dropped, rt):
-    o = {"expanded": False, "panic": False, "tkind": [], "tname": [], "tdeco": [], "callee": "", "selfarg": False,
+def observe(case, recs, dropped, rt):
+    rk = case.get("rk", "self")
+    # (impl-block cases have two invocations: the entraited trait and the impl block - the latter is the one under test)
+    rec = next((r for r in (recs or []) if (rk == "self") or any(i["k"] == "impl" and i.get("inherent") for i in r["items"])), None)
+    o = {"expanded": False, "panic": False, "tkind": [], "tname": [], "tdeco": [], "inserted": [], "callee": "", "selfarg": False,
          "callargs": [], "compiled": False, "ran": False, "via_trait": [], "direct": [], "errors": [], "diag": []}
     if rec is None:
         raise vf.ToolError(f"C16: no expansion record for case {case['case']} (hook off?)")
     o["panic"] = rec["panic"] is not None
     o["errors"] = rec["errors"]
-    trait = next((i for i in rec["items"] if i["k"] == "trait" and i["name"] == "T"), None)
-    impl = next((i for i in rec["items"] if i["k"] == "impl" and i["trait"] == "T"), None)
+    if rk == "self":
+        trait = next((i for i in rec["items"] if i["k"] == "trait" and i["name"] == "T"), None)
+        impl = next((i for i in rec["items"] if i["k"] == "impl" and i["trait"] == "T"), None)
+    else:
+        # the generated signature is the method of `impl TImpl<EntraitT> for X0`
+        impl = next((i for i in rec["items"] if i["k"] == "impl" and not i.get("inherent") and i["trait"] == "TImpl"), None)
+        trait = impl
     if not o["panic"] and not rec["errors"] and rec["parse_ok"] and trait and impl and trait["methods"] and impl["methods"]:
         o["expanded"] = True
         m = trait["methods"][0]
-        o["tkind"] = [p["kind"] for p in m["params"]]
-        o["tname"] = [name_rec(p["name"]) for p in m["params"]]
-        o["tdeco"] = [p["deco"] for p in m["params"]]
+        params = list(m["params"])
+        if rk != "self" and params and params[0]["name"] == "__impl":
+            # the parameter the macro inserts (first typed parameter; after `&self` for dynamic targets)
+            o["inserted"] = [name_rec(params[0]["name"])]
+            params = params[1:]
+        o["tkind"] = [p["kind"] for p in params]
+        o["tname"] = [name_rec(p["name"]) for p in params]
+        o["tdeco"] = [p["deco"] for p in params]
         call = impl["methods"][0]["call"]
         if call.get("kind") == "fn":
             callee = call["callee"]
+            if rk != "self" and callee.startswith("Self::"):
+                callee = callee[len("Self::"):]
             o["callee"] = callee[2:] if callee.startswith("r#") else callee
             args = list(call["args"])
-            if args and args[0] == "self":
+            if args and args[0] == ("self" if rk == "self" else "__impl"):
                 o["selfarg"] = True
                 args = args[1:]
             o["callargs"] = [name_rec(a) for a in args]
@@ -92,14 +133,14 @@ def main():
     # ---- 1. model checking + case dump
     specdir = vf._spec_copy(chk.work)
     with open(os.path.join(specdir, "MC_C16.cfg")) as f:
-        cfg = f.read().replace("MaxLen = 2", f"MaxLen = {maxlen}")
+        cfg = f.read().replace("MaxLen = 2", f"MaxLen = {maxlen}").replace("ImplFull = 1", f"ImplFull = {2 if thorough else 1}")
     with open(os.path.join(specdir, "MC_C16.cfg"), "w") as f:
         f.write(cfg)
     cases_file = os.path.join(chk.work, "cases.ndjson")
     res = vf.run_tlc(chk.work, "MC_C16", env={"OUT": cases_file}, workers=8, timeout=3000, heap="8g")
     vf.need_ok(res, "MC_C16")
     chk.add_tlc(res, "MC_C16")
-    chk.vacuity(res, ["Simplify", "LiftInner", "Autogenerate", "GenDone", "FixIdentConflicts", "Finish"])
+    chk.vacuity(res, ["Simplify", "LiftInner", "Autogenerate", "GenDone", "FixIdentConflicts", "FixDone", "FixImplParamConflicts", "Finish"])
     cases = vf.read_ndjson(cases_file)
     for n, c in enumerate(cases):
         c["case"] = f"{n:06d}"
@@ -130,7 +171,7 @@ def main():
     for rec in recs:
         cid = vf.case_of_file(rec["file"])
         if cid is not None:
-            by_case[cid] = rec
+            by_case.setdefault(cid, []).append(rec)
     events = []
     for c in cases:
         o = observe(c, by_case.get(c["case"]), dropped, rt)
@@ -149,9 +190,10 @@ def main():
     drift = vf.read_ndjson(drift_file)
     chk.cov["traces_validated_against_impl"] = len(events)
     chk.cov["evaluations"] = len(events)
-    chk.cov["distinct_nontrivial"] = len({json.dumps([c["list"], c["f"], c["nodeps"]]) for c in cases if len(c["list"]) > 0})
+    chk.cov["distinct_nontrivial"] = len({json.dumps([c["list"], c["f"], c["nodeps"], c["rk"]]) for c in cases if len(c["list"]) > 0})
     chk.cov["rule"] = (f"every pattern list of length <= {maxlen} (quick: plus every list of length 3 over the 6 symbols that interact with generated names) over {len(SYMS_ALL)} pattern symbols x 3 fn names x "
-                       "deps/no_deps that is valid Rust in the original function; non-trivial = at least one parameter")
+                       "deps/no_deps that is valid Rust in the original function; the same for the functions of entraited impl blocks (static and dynamic delegation targets, where the macro inserts its `__impl` parameter): "
+                       f"every list up to length {2 if thorough else 1} and every longer list with a parameter called `__impl`; non-trivial = at least one parameter")
     chk.cov["exhaustive"] = True
     chk.cov["drift"] = len({d["case"] for d in drift})
     chk.cov["build_iterations"] = iters
@@ -181,7 +223,7 @@ def main():
                 f.write(render(c))
             with open(os.path.join(d, f"case_{v['case']}.json"), "w") as f:
                 json.dump({"violations": [x for x in viol if x["case"] == v["case"]], "event": ev_by_case[v["case"]],
-                           "abstract": {k: c[k] for k in ("list", "f", "nodeps", "ptext")}}, f, indent=1)
+                           "abstract": {k: c[k] for k in ("list", "f", "nodeps", "rk", "ptext")}}, f, indent=1)
         return d
 
     chk.reconcile(bad, write_replay)
